@@ -301,6 +301,9 @@ def wl_join(ctx, rng, case):
     cls = getattr(P, cls_name)
     other_cls = getattr(P, rng.choice(["CountMinSketch", cls_name]))
     width, depth = rng.choice([1, 2, 3, 5, 8, 50, 1000]), rng.randint(1, 6)
+    if case.index % 70 == 3:
+        width, depth = rng.choice([(8192, 8), (16384, 4), (70001, 1), (9000, 8), (33000, 2)])  # 65 536 counters and more
+        ctx.count("joins_of_sketches_with_65536_counters_or_more")
     if "MeanMin" in cls_name + other_cls.__name__:
         width = max(width, 2)  # the mean-min query divides by width-1 (as the C original does): width 1 is outside its domain
     A, cA = legit_stream(rng, keys, rng.randint(0, 14))
